@@ -42,3 +42,105 @@ Print Assumptions C02_current_atts_refuted.
 Theorem C02_current_atts_repaired : current_atts_are_winners stamped_atts_repaired.
 Proof. intros wa na nw H. unfold stamped_atts_repaired. destruct nw; [symmetry; auto | reflexivity]. Qed.
 Print Assumptions C02_current_atts_repaired.
+
+(* ================= request kinds (Kinds.v) ================= *)
+From SG Require Import C02.Kinds C02.KindsProofs.
+
+(* --- GENUINE DEFECT (monitor delta_source_authorised, signature delta-source-revision-not-authorised):
+   db/crud.go GetDelta authorises the TARGET revision only; the delta is computed against a source revision the
+   reader need not be authorised for, and names the properties of the source that the target dropped.
+   So non-interference of ALL kinds, without the side condition [delta_source_ok], is false ... *)
+Definition all_kinds_noninterferent (dl : bool -> user -> option doc -> rid -> rid -> delta_out) : Prop :=
+  forall named u d d' from to, doc_sim named u d d' -> faithful d -> faithful d' ->
+    dl named u (Some d) from to = dl named u (Some d') from to.
+
+(* reader holds channel 2; revision 1-1 is in channel 3 only (body property 7, resp. 9), its child 2-2 in channel 2 *)
+Theorem C02_delta_noninterference_refuted : ~ all_kinds_noninterferent delta.
+Proof.
+  intros H.
+  pose (u := mkUser (mkRole [2] []) []).
+  pose (mk := fun b => mkDoc [mkNode (1, 1) None false (mkRev [3] false false (Some [b]) []) [3];
+                              mkNode (2, 2) (Some (1, 1)) true (mkRev [2] false false (Some [8]) []) [2]] (2, 2)).
+  specialize (H true u (mk 7) (mk 9) (1, 1) (2, 2)).
+  assert (S : doc_sim true u (mk 7) (mk 9)).
+  { split; [reflexivity|]. constructor; [|constructor; [|constructor]].
+    - repeat split; try reflexivity; try (intros; discriminate).
+    - repeat split; try reflexivity; try (intros; discriminate). }
+  assert (F : forall b, faithful (mk b)).
+  { intros b n [E|[E|[]]]; subst n; reflexivity. }
+  specialize (H S (F 7) (F 9)). vm_compute in H. discriminate.
+Qed.
+Print Assumptions C02_delta_noninterference_refuted.
+
+(* ... and holds for the repaired GetDelta, which authorises the source like the target *)
+Theorem C02_delta_noninterference_repaired : all_kinds_noninterferent delta_repaired.
+Proof. intros named u d d' from to S F F'. apply delta_repaired_noninterference; assumption. Qed.
+Print Assumptions C02_delta_noninterference_repaired.
+
+(* --- GENUINE DEFECT (monitor prove_attachment_gate, signature legacy-attachment-proof-without-visible-revision):
+   db/blip_handler.go handleProveAttachment does not test the allow-list counter; a digest that is not allow-listed
+   is looked up under the collection-wide legacy attachment key.  A proof over the bytes of a legacy attachment is
+   handed to whoever names its digest, on a connection on which nothing was ever sent. *)
+Definition prove_needs_visible_revision (pv : bool -> gate -> list N -> N -> bool) : Prop :=
+  forall named u pre v3 legacy k,
+    let c := fst (gate_run named u conn0 pre) in
+    pv v3 (c_gate c) legacy k = true ->
+    exists rv, In rv (c_out c) /\ In k (att_keys (rv_atts rv)) /\ can_see_any named u (rv_chans rv) = true.
+
+Theorem C02_prove_needs_visible_revision_refuted : ~ prove_needs_visible_revision prove_serves.
+Proof.
+  intros H. destruct (H true (mkUser (mkRole [] []) []) [] true [5] 5 eq_refl) as (rv & [] & _).
+Qed.
+Print Assumptions C02_prove_needs_visible_revision_refuted.
+
+Theorem C02_prove_needs_visible_revision_repaired : prove_needs_visible_revision prove_serves_repaired.
+Proof.
+  intros named u pre v3 legacy k c H.
+  destruct (prove_repaired_gate named u pre v3 legacy k H) as (rv & A & B & C & _). exists rv. auto.
+Qed.
+Print Assumptions C02_prove_needs_visible_revision_repaired.
+
+(* --- BY DESIGN, not a defect (evidence counter shape_disclosed_by_point_requests): a request that NAMES a document
+   tells whether it exists and hands out revision ids of its tree, whoever asks -- GET answers 403 instead of 404,
+   _revs_diff / the changes reply list possible ancestors, proposeChanges answers 409 (+ the current revision id),
+   open_revs=all lists a stub per leaf.  Only listings hide existence ([C02_listing_hides_existence]). *)
+Definition point_requests_hide_existence : Prop :=
+  forall named u k d n, faithful d -> cur_node d = Some n -> authorised named u n = false ->
+    respond named u k (Some d) = respond named u k None.
+
+Theorem C02_point_requests_hide_existence_refuted : ~ point_requests_hide_existence.
+Proof.
+  intros H.
+  pose (d := mkDoc [mkNode (1, 1) None true (mkRev [3] false false (Some [7]) []) [3]] (1, 1)).
+  specialize (H true (mkUser (mkRole [2] []) []) (KPropose (1, 2) None true) d
+                (mkNode (1, 1) None true (mkRev [3] false false (Some [7]) []) [3])).
+  assert (F : faithful d) by (intros n [E|[]]; subst n; reflexivity).
+  specialize (H F eq_refl eq_refl). vm_compute in H. discriminate.
+Qed.
+Print Assumptions C02_point_requests_hide_existence_refuted.
+
+(* --- the first known finding, seen from the kinds: when the revision cache reports channels other than those
+   assigned to a revision (a backup stamped by [backup_chans] with the winner's channels), content of a revision
+   the reader is not authorised for is handed out; [faithful] is exactly what the repaired stamp restores *)
+Definition content_needs_no_faithfulness : Prop :=
+  forall named u k d a r b at' dl h, In a (answers (respond named u k (Some d))) -> a = AFull r b at' dl h ->
+    exists n, In n (d_nodes d) /\ n_id n = r /\ authorised named u n = true.
+
+Theorem C02_content_without_faithful_cache_refuted : ~ content_needs_no_faithfulness.
+Proof.
+  intros H.
+  pose (u := mkUser (mkRole [2] []) []).
+  (* the losing revision 2-1 (assigned channel 3) was backed up with the winner's channel 2 *)
+  pose (n := mkNode (2, 1) None false (reloaded (backup_chans [2] [3] false) [7]) [3]).
+  pose (d := mkDoc [n; mkNode (2, 9) None true (mkRev [2] false false (Some [8]) []) [2]] (2, 9)).
+  destruct (H true u (KGet (Some (2, 1)) false) d (AFull (2, 1) [7] [] false []) (2, 1) [7] [] false [])
+    as (m & Hin & Hid & Hau); [left; reflexivity | reflexivity |].
+  destruct Hin as [E|[E|[]]]; subst m; vm_compute in Hid, Hau; discriminate.
+Qed.
+Print Assumptions C02_content_without_faithful_cache_refuted.
+
+Theorem C02_backup_repaired_is_faithful : forall winner parent piw b,
+  (piw = true -> parent = winner) ->
+  rv_chans (reloaded (backup_chans_repaired winner parent piw) b) = parent.
+Proof. intros winner parent piw b H. cbn. unfold backup_chans_repaired. destruct piw; [symmetry; auto | reflexivity]. Qed.
+Print Assumptions C02_backup_repaired_is_faithful.
